@@ -227,6 +227,10 @@ func (dr *DecodingReader) List(add func() Deserializable, fixedElemSize uint64, 
 		if length > limit {
 			return fmt.Errorf("too many items in list: %d > %d", length, limit)
 		}
+		// a non-empty scope holds at least one item, and the offsets must fit in it
+		if firstOffset == 0 || uint64(firstOffset) > scope {
+			return fmt.Errorf("first offset %d of list is invalid for scope %d", firstOffset, scope)
+		}
 		// TODO could optimize this
 		offsets := make([]uint64, 0, length)
 		offsets = append(offsets, uint64(firstOffset))
